@@ -202,8 +202,8 @@ def _content_only(ctx) -> None:
     p2 = _forbidden(g)
     X = ("param", g.params[0])
     gh = (("attr", ("name", "Vector"), "_hash_element"), ("name", "_hash_element"), ("attr", ("param", "cls"), "_hash_element"))
-    for e in [e for e in gi.events if e.kind == "return" and e.depth == 0]:
-        v = e.term
+    from ..sites2 import leaves as _leaves
+    for v in [lf for e in gi.events if e.kind == "return" and e.depth == 0 for lf in _leaves(e.term)]:
         ok_form = (v[0] == "const" and isinstance(v[2], int)) \
             or (v[0] == "call" and v[1] == ("name", "hash") and len(v[2]) == 1) \
             or (v[0] == "call" and v[1] == ("name", "int") and len(v[2]) == 1 and v[2][0][0] == "call" and v[2][0][1][0] == "attr"
